@@ -21,7 +21,7 @@ def strategy(tier, unit):
     z = st.one_of(st.just(0.0), S.fl(-0.3, 0.3), S.fl(-0.3, 0.3))
     off = st.one_of(st.just(0.0), S.fl(-2, 2), S.fl(-2, 2))
     return st.fixed_dictionaries({
-        "tthd": S.fl(0.5, 60.0), "eta": S.fl(-2 * math.pi, 2 * math.pi), "tilt": st.tuples(z, z, z).map(list),
+        "tthd": S.fl(0.5, 60.0), "eta": st.one_of(S.fl(-2 * math.pi, 2 * math.pi), S.fl(-20.0, 20.0), st.sampled_from([0.0, math.pi / 2, math.pi, -math.pi / 2, 2 * math.pi])), "tilt": st.tuples(z, z, z).map(list),
         "L": S.logfl(10, 1000), "py": S.logfl(0.01, 0.5), "pz": S.logfl(0.01, 0.5),
         "y0": st.one_of(S.fl(-3000, 3000), st.integers(-3000, 3000)), "z0": st.one_of(S.fl(-3000, 3000), st.integers(0, 3000)),
         "t": st.tuples(off, off, off).map(list), "wl": S.fl(0.1, 2.0), "intL": st.booleans()})
